@@ -126,8 +126,8 @@ impl Obs {
         Obs { kinds: BTreeSet::new(), nerr: 0, unsorted: vec![], rendered: 0, colour_seen: false, rlimit: false }
     }
 
-    /// Evaluate the sortedness oracle on the whole list and render diagnostics in all forms: the first 6,
-    /// the last 2 and the first of every kind (rendering all of a list of thousands adds time, not coverage).
+    /// Evaluate the sortedness oracle on the whole list and render diagnostics in all forms: the first 3,
+    /// the last one and the first of every kind (rendering all of a list of thousands adds time, not coverage).
     fn errors(&mut self, label: &str, errs: &DiagnosticList) {
         let mut prev: Option<Option<(apollo_compiler::parser::FileId, usize)>> = None;
         let n = errs.len();
@@ -154,7 +154,7 @@ impl Obs {
                 }
             };
             let new_kind = self.kinds.insert(kind);
-            if idx < 6 || idx + 2 >= n || new_kind {
+            if idx < 3 || idx + 1 >= n || new_kind {
                 let plain = d.to_string();
                 let coloured = format!("{d:?}");
                 let report = d.to_report(apollo_compiler::diagnostic::Color::StderrIsTerminal).into_string();
